@@ -10,49 +10,81 @@ def read_only():
     return effect_names() == []
 
 
-@contract("xandikos.store.git.GitStore.get_displayname", params={"self": "obj:xandikos.store.git.GitStore"}, returns="opt[str]")
+def git_opt(v):
+    return None if (v is None or v == b"") else v.decode("utf-8")
+
+
+def store_opt(store, gkey, fkey):
+    """C15: what a collection's metadata getter answers - the stored value, or None when unset -
+    from whichever of the two places the collection keeps its metadata in."""
+    return (git_opt(repo_gitconfig(store.repo).get(gkey)) if repo_has_meta(store.repo)
+            else stored_cfg(store).get(fkey))
+
+
+@contract("xandikos.store.git.GitStore.get_displayname", params={"self": "obj:xandikos.store.git.GitStore"}, returns="opt[str]",
+          inline_calls=["xandikos.store.git.GitStore.config"])
 class GitStore_get_displayname_c:
     def requires(self):
-        return self.ghost_cfg is None or is_ascii(self.ghost_cfg)
+        return cfg_ok(self)
 
     def ensures(self):
         return read_only()
 
+    def ensures_value(self, result):
+        return result == store_opt(self, b"xandikos/displayname", "DEFAULT/displayname")
 
-@contract("xandikos.store.git.GitStore.get_description", params={"self": "obj:xandikos.store.git.GitStore"}, returns="opt[str]")
+
+@contract("xandikos.store.git.GitStore.get_description", params={"self": "obj:xandikos.store.git.GitStore"}, returns="opt[str]",
+          inline_calls=["xandikos.store.git.GitStore.config"])
 class GitStore_get_description_c:
     def requires(self):
-        return self.ghost_cfg is None or is_ascii(self.ghost_cfg)
+        return cfg_ok(self)
 
     def ensures(self):
         return read_only()
 
+    def ensures_value(self, result):
+        return result == (git_opt(repo_description(self.repo)) if repo_has_meta(self.repo)
+                          else stored_cfg(self).get("DEFAULT/description"))
 
-@contract("xandikos.store.git.GitStore.get_comment", params={"self": "obj:xandikos.store.git.GitStore"}, returns="opt[str]")
+
+@contract("xandikos.store.git.GitStore.get_comment", params={"self": "obj:xandikos.store.git.GitStore"}, returns="opt[str]",
+          inline_calls=["xandikos.store.git.GitStore.config"])
 class GitStore_get_comment_c:
     def requires(self):
-        return self.ghost_cfg is None or is_ascii(self.ghost_cfg)
+        return cfg_ok(self)
 
     def ensures(self):
         return read_only()
 
+    def ensures_value(self, result):
+        return result == store_opt(self, b"xandikos/comment", "DEFAULT/comment")
 
-@contract("xandikos.store.git.GitStore.get_color", params={"self": "obj:xandikos.store.git.GitStore"}, returns="opt[str]")
+
+@contract("xandikos.store.git.GitStore.get_color", params={"self": "obj:xandikos.store.git.GitStore"}, returns="opt[str]",
+          inline_calls=["xandikos.store.git.GitStore.config"])
 class GitStore_get_color_c:
     def requires(self):
-        return self.ghost_cfg is None or is_ascii(self.ghost_cfg)
+        return cfg_ok(self)
 
     def ensures(self):
         return read_only()
 
+    def ensures_value(self, result):
+        return result == store_opt(self, b"xandikos/color", "DEFAULT/color")
 
-@contract("xandikos.store.git.GitStore.get_source_url", params={"self": "obj:xandikos.store.git.GitStore"}, returns="opt[str]")
+
+@contract("xandikos.store.git.GitStore.get_source_url", params={"self": "obj:xandikos.store.git.GitStore"}, returns="opt[str]",
+          inline_calls=["xandikos.store.git.GitStore.config"])
 class GitStore_get_source_url_c:
     def requires(self):
-        return self.ghost_cfg is None or is_ascii(self.ghost_cfg)
+        return cfg_ok(self)
 
     def ensures(self):
         return read_only()
+
+    def ensures_value(self, result):
+        return result == store_opt(self, b"xandikos/source", "DEFAULT/source")
 
 
 @contract("xandikos.web.StoreBasedCollection.get_displayname", params={"self": "obj:xandikos.web.StoreBasedCollection"},
@@ -61,17 +93,25 @@ class Collection_get_displayname_c:
     """The configured display name, else the directory name - computed, never stored."""
 
     def requires(self):
-        return self.store.ghost_cfg is None or is_ascii(self.store.ghost_cfg)
+        return cfg_ok(self.store)
 
     def ensures(self):
         return read_only()
+
+    def ensures_value(self, result):
+        # a stored display name is shown as it is (the fall-back only stands in for an unset one)
+        d = store_opt(self.store, b"xandikos/displayname", "DEFAULT/displayname")
+        return implies(d is not None, result == d)
 
 
 @contract("xandikos.web.StoreBasedCollection.get_comment", params={"self": "obj:xandikos.web.StoreBasedCollection"},
           returns="opt[str]")
 class Collection_get_comment_c:
     def requires(self):
-        return self.store.ghost_cfg is None or is_ascii(self.store.ghost_cfg)
+        return cfg_ok(self.store)
 
     def ensures(self):
         return read_only()
+
+    def ensures_value(self, result):
+        return result == store_opt(self.store, b"xandikos/comment", "DEFAULT/comment")
